@@ -18,7 +18,23 @@ def run_step(prop, tier, entry, id_prefixes, bounds, extra_entries=(), loop=64):
     c.bounds = dict({"history_length": "unbounded (1-induction over the invariant)", "events_per_query": 1, "parsed_slice_len_max": 2,
                      "call_depth": 40, "loop_unwind": loop}, **bounds)
     entries = [entry, "H_Step_Vacuity"] + list(extra_entries)
-    res, meta = lib.run_engine("ship", entries, sched="manual", cuts=lib.SHIP_CUTS, loop=loop)
+    extra = []
+    if tier == "thorough":
+        extra = ["-param", "morebuf=1", "-param", "morefail=1"]
+        c.bounds["pre_buffer_len_max"] = c.bounds.get("pre_buffer_len_max", 0) + 1
+        if c.bounds.get("write_failures_per_step"):
+            c.bounds["write_failures_per_step"] += 1
+    res, meta = lib.run_engine("ship", entries, sched="manual", cuts=lib.SHIP_CUTS, loop=loop, extra=extra, paths=3000000)
+    if tier == "thorough" and res:
+        # the same encoding on the second solver: verdicts must agree
+        res_b, meta_b = lib.run_engine("ship", [entry], sched="manual", cuts=lib.SHIP_CUTS, loop=loop, extra=extra, paths=3000000, solver="z3-new")
+        c.add_run("ship-step-second-solver", res_b, meta_b)
+        if res_b:
+            a = sorted({(v["kind"], v["id"]) for v in res[entry]["violations"] or []})
+            b = sorted({(v["kind"], v["id"]) for v in res_b[entry]["violations"] or []})
+            c.extra["solver_agreement"] = {"z3": a, "z3-new": b, "agree": a == b, "paths": [res[entry]["paths"], res_b[entry]["paths"]]}
+            if a != b or res[entry]["paths"] != res_b[entry]["paths"]:
+                c.inconclusive.append("solvers disagree on %s: %s vs %s" % (entry, a, b))
     c.add_run("ship-step", res, meta)
     if res:
         vac = res.pop("H_Step_Vacuity")
